@@ -1,2 +1,139 @@
-(* C34 statements (in progress) *)
+(* C34 -- Rate limiters enforce exactly their configured windows and buckets.
+   Only statements and `exact`; the proofs are in Proofs/C34.v.
+   Model: Model/Limiter.v (addrquota.ipKey; token bucket in exact arithmetic; packetlimiter's counter ring
+   buffer, limiter and float comparison) over Base/Ip.v. *)
+From Coq Require Import List ZArith NArith Bool String.
 From Verif Require Import Base.Hex Base.Ip Model.Limiter Proofs.C34.
+Import ListNotations.
+Open Scope Z_scope.
+
+(* ---------- (c) "A connection's packet limiter closes it exactly when the packets or bytes counted in the
+   trailing window exceed the configured per-second rate times the window, matching a straightforward
+   sliding-window count for any sequence of timestamps and sizes." ---------- *)
+
+(* The running sum of the ring buffer (counter.sum, with head/tail wrap-around and any number of resizes)
+   equals the sliding-window sum, for EVERY history the ring accepts: hist is the whole history, newest first,
+   of any length and with any counts; good_hist = window and times in (0, 2^62), times non-decreasing. *)
+Theorem C34_ring_refines_window : forall iv now cnt hist,
+  good_hist iv ((now, cnt) :: hist) ->
+  sum (run_hist iv ((now, cnt) :: hist)) = window_sum iv now ((now, cnt) :: hist).
+Proof. exact ring_refines_window. Qed.
+Print Assumptions C34_ring_refines_window.
+
+(* The invariant behind it: after any accepted history the live segment of the ring, read from head to
+   tail, is exactly the list of points not older than the window (qfilter), the rest of counts is zero
+   and total is their sum (Inv). *)
+Theorem C34_ring_invariant : forall iv hist, good_hist iv hist ->
+  Inv (run_hist iv hist) /\ live (run_hist iv hist) = qfilter iv hist /\ interval (run_hist iv hist) = iv.
+Proof. exact run_hist_ok. Qed.
+Print Assumptions C34_ring_invariant.
+
+(* The limiter (New + Account with the clock as an argument, packets checked first, bytes second) decides
+   like the straightforward sliding-window count up to and including the first refusal (where the
+   connection is closed), for every rate comparison exc, both dimensions, and every sequence in range
+   (window, times in (0, 2^62), sizes in [0, 2^40), times non-decreasing). *)
+Theorem C34_limiter_refines_window : forall exc pps bps iv evs,
+  in_range iv evs = true ->
+  prefix_agrees (spec_run exc pps bps iv [] evs)
+                (map snd (run_limiter exc (new_limiter pps bps iv) evs)) = true.
+Proof. exact limiter_refines_window. Qed.
+Print Assumptions C34_limiter_refines_window.
+
+(* PARTIAL.  The comparison Account really makes, float64(total) / (float64(interval) * 1e-9) > float64(limit),
+   is modelled bit-exactly (IEEE-754 binary64 via Coq.Floats.SpecFloat) as exceeds_float; the property's comparison is exceeds_exact
+   (limit * interval < total * 10^9).  Proved equal only on a table of 14 windows x 20 limits at the totals
+   within 2 of the threshold (and 0, 2t+1), and for the default configuration (7 s, 500/s) on every total up
+   to 8099.  Missing: all totals/windows/limits (needs monotonicity of IEEE division, e.g. from Flocq's real-number
+   specification, which would bring the classical-reals axioms in); the boundary sweep of the correspondence (totals at rate*window -1/0/+1) carries the rest. *)
+Theorem C34_float_decision_exact_partial :
+  (forall iv limit, In iv float_table_windows -> In limit float_table_limits ->
+     let t := limit * iv / 1000000000 in
+     forall tot, In tot [Z.max 0 (t - 2); Z.max 0 (t - 1); t; t + 1; t + 2; 0; 2 * t + 1] ->
+     exceeds_float tot iv limit = exceeds_exact tot iv limit) /\
+  (forall a b, (a <= 80)%nat -> (b < 100)%nat ->
+     let n := Z.of_nat (100 * a + b) in
+     exceeds_float n 7000000000 500 = exceeds_exact n 7000000000 500).
+Proof. exact float_decision_exact_partial. Qed.
+Print Assumptions C34_float_decision_exact_partial.
+
+(* ---------- (b) "allow each group at most burst plus rate-times-elapsed events" ---------- *)
+(* Token bucket with rate rnum/rden per time unit and capacity burst, tokens scaled by rden; for every
+   state within capacity, every non-decreasing sequence of event times and every interval [t0, t1]:
+   granted * rden <= burst * rden + rnum * (t1 - t0). *)
+Theorem C34_bucket_bound : forall burst rnum rden,
+  0 <= rnum -> 0 < rden -> 0 <= burst ->
+  forall t0 t1, t0 <= t1 -> forall ts b, binv burst rden b -> sorted_ge (last b) ts ->
+  granted_in t0 t1 ts (bucket_run burst rnum rden b ts) * rden <= burst * rden + rnum * (t1 - t0).
+Proof. exact bucket_bound. Qed.
+Print Assumptions C34_bucket_bound.
+
+(* ... and an event is granted exactly when a whole token is there after the refill *)
+Theorem C34_bucket_allow_iff : forall burst rnum rden b t,
+  snd (bucket_allow burst rnum rden b t) = true <->
+  rden <= Z.min (burst * rden) (tok b + rnum * (Z.max t (last b) - last b)).
+Proof. exact bucket_allow_iff. Qed.
+Print Assumptions C34_bucket_allow_iff.
+
+(* ---------- (a) "group addresses by IPv4 /24 (including IPv4-mapped IPv6) and IPv6 /64" ---------- *)
+(* bits are numbered from the least significant end: /24 of an IPv4 address = bits 8..31, /64 = bits 64..127;
+   fam (unmap a) = V4 says: IPv4 or IPv4-mapped IPv6 *)
+Theorem C34_ip_key_eq_iff : forall a b, wf_addr a -> wf_addr b ->
+  (key_of_addr a = key_of_addr b <->
+   (fam (unmap a) = V4 /\ fam (unmap b) = V4 /\
+    forall i, (8 <= i < 32)%N -> N.testbit (abits a) i = N.testbit (abits b) i) \/
+   (fam (unmap a) = V6 /\ fam (unmap b) = V6 /\
+    forall i, (64 <= i < 128)%N -> N.testbit (abits a) i = N.testbit (abits b) i)).
+Proof. exact ip_key_eq_iff. Qed.
+Print Assumptions C34_ip_key_eq_iff.
+
+Theorem C34_ip_key_on_texts : forall s1 s2 a1 a2,
+  parse_addr s1 = Some a1 -> parse_addr s2 = Some a2 ->
+  (spec_ip_key s1 = spec_ip_key s2 <-> key_of_addr (strip_zone a1) = key_of_addr (strip_zone a2)) /\
+  spec_ip_key s1 <> None.
+Proof. exact spec_ip_key_groups. Qed.
+Print Assumptions C34_ip_key_on_texts.
+
+Theorem C34_unparsable_never_limited : forall s, parse_addr s = None -> spec_ip_key s = None /\ impl_ip_key s = None.
+Proof. exact spec_ip_key_none. Qed.
+Print Assumptions C34_unparsable_never_limited.
+
+(* Finding C34-1: the code (impl_ip_key, net.ParseIP) gives no key to an address with a zone, so such a
+   peer is never limited; off that trigger the code is what the property demands. *)
+Theorem C34_ip_key_zone_refuted : exists s,
+  zone_trigger s = true /\ impl_ip_key s = None /\ spec_ip_key s <> None /\
+  spec_ip_key s = spec_ip_key [102; 101; 56; 48; 58; 58; 49]%N.
+Proof. exact ip_key_zone_refuted. Qed.
+Print Assumptions C34_ip_key_zone_refuted.
+
+Theorem C34_impl_ip_key_eq_spec_off_trigger : forall s, zone_trigger s = false -> impl_ip_key s = spec_ip_key s.
+Proof. exact impl_ip_key_eq_spec_off_trigger. Qed.
+Print Assumptions C34_impl_ip_key_eq_spec_off_trigger.
+
+(* ---------- non-vacuity ---------- *)
+(* 45 points, 5 of which expire first (head = 5 when the ring fills), three resizes (cap 64), sum 0+..+39 *)
+Example C34_ring_nonvacuous :
+  good_hist 7000000000 (rev sample_events ++ []) /\
+  cap (run_hist 7000000000 (rev sample_events)) = 64%nat /\
+  sum (run_hist 7000000000 (rev sample_events)) = 780 /\
+  head (run_hist 7000000000 (rev (firstn 12 sample_events))) = 5%nat.
+Proof. exact ring_nonvacuous. Qed.
+
+Example C34_limiter_nonvacuous :
+  in_range 7000000000 sample_events = true /\
+  map snd (run_limiter exceeds_float (new_limiter 5 (-1) 7000000000) (firstn 8 sample_events))
+    = [true; true; true; true; true; true; true; true] /\
+  existsb negb (map snd (run_limiter exceeds_float (new_limiter 5 (-1) 7000000000) sample_events)) = true.
+Proof. exact limiter_nonvacuous. Qed.
+
+(* the premise "times non-decreasing" is needed: with a clock that steps back the ring over-counts *)
+Example C34_ring_clock_steps_back_differs :
+  let hist := [(25, 1); (5, 1); (20, 1)] in
+  sum (run_hist 10 hist) = 3 /\ window_sum 10 25 hist = 2.
+Proof. exact ring_clock_steps_back_differs. Qed.
+
+Example C34_bucket_nonvacuous :
+  let ts := [0; 0; 0; 0; 0; 1000000000; 1000000001; 2500000000; 2500000000; 10000000000; 10000000000; 10000000000; 10000000000] in
+  let oks := bucket_run 3 1 1000000000 (bucket_new 3 1000000000 0) ts in
+  oks = [true; true; true; false; false; true; false; true; false; true; true; true; false] /\
+  granted_in 0 2500000000 ts oks = 5.
+Proof. exact bucket_nonvacuous. Qed.
